@@ -34,6 +34,8 @@ def gen_data_params(rng, *, n_files=None, small=False, tie_free=True, level_cols
         "lower_better": None,
         "strong": None,
         "nan_feature": rng.choice([0, 0, 0, 1, 3]),
+        # jointly modelled files of unequal size (a per-file share of a training cap can exceed a small file)
+        "size_factors": [1.0] + [rng.choice([1.0, 0.6, 0.4]) for _ in range(n_files - 1)] if n_files > 1 else None,
     }
 
 
@@ -41,9 +43,10 @@ def build_tables(dp):
     out = []
     for f in range(dp["n_files"]):
         rng = random.Random(f"{dp['data_seed']}|{f}")
+        fac = (dp.get("size_factors") or [1.0] * dp["n_files"])[f] if f < len(dp.get("size_factors") or []) else 1.0
         t = datagen.gen_table(
             rng,
-            n_spectra=dp["n_spectra"],
+            n_spectra=max(30, int(dp["n_spectra"] * fac)),
             max_per_spectrum=dp["max_per_spectrum"],
             n_features=dp["n_features"],
             spec_extra=dp["spec_extra"],
